@@ -61,6 +61,8 @@ def check_series(case, t, D, mode, N):
             d = {s: rows[i][k] - rows[i - 1][k] for k, s in enumerate(sts) if rows[i][k] != rows[i - 1][k]}
             minus = [s for s, v in d.items() if v == -1]
             plus = [s for s, v in d.items() if v == 1]
+            if not d and any(a == b for a, b in moves):
+                continue            # the model has events that leave the status unchanged (failed attempts)
             if len(d) != 2 or len(minus) != 1 or len(plus) != 1 or (minus[0], plus[0]) not in moves:
                 fails.append(Failure(name + ':one-legal-move', 'rows %d->%d change by %r (t=%r), not one legal move of %r'
                                      % (i - 1, i, d, t[i], sorted(moves))))
